@@ -68,7 +68,11 @@ def rule_vocabulary():
             for fn in sorted(os.listdir(td)):
                 with open(os.path.join(td, fn)) as fh:
                     txt.append(fh.read())
-        _VOCAB = set(re.findall(r"[A-Za-z_][A-Za-z0-9_]*", "\n".join(txt)))
+        # a function is "named by a rule" when its name is used in path form (`Type::name`, `module::name`) or as the
+        # name= / path= argument of an anchor lookup - not when the same English word merely occurs in a description
+        body = "\n".join(txt)
+        _VOCAB = set(re.findall(r"::([A-Za-z_][A-Za-z0-9_]*)", body)) | set(re.findall(r"name=\"([A-Za-z_][A-Za-z0-9_]*)\"", body)) | \
+            set(re.findall(r"[\"'(]([a-z_][a-z0-9_]*)\(", body))
     return _VOCAB
 
 
